@@ -29,6 +29,7 @@ META = {
                     "sa of a iff (a,sa,ov) in side sb of b; no dangling ids; edge_tags keys are links of the graph"],
 }
 META["explanation"] += '  edit/add_node also re-adds an id that is already in the graph (documented: warning, no change).'
+META["explanation"] += '  decomp/N4-simple/h0..h7: every labelled simple graph on four nodes (64) under eight hash seeds.'
 
 PAIR_MENU = [[], [("+", "+")], [("+", "-")], [("-", "-")], [("+", "+"), ("-", "-")], [("+", "-"), ("-", "+")]]
 SELF_MENU = [[], [("+", "+")], [("+", "-")]]
@@ -56,6 +57,8 @@ def harnesses(tier):
     for pab in range(len(PAIR_MENU)):
         for sa in range(len(SELF_MENU)):
             hs.append({"id": "decomp/N3/ab%d-a%d" % (pab, sa), "params": {"kind": "decomp", "n": 3, "fixed": [pab, sa]}, "timeout": 900})
+    for seed in range(8):  # the search order of biccs() follows the iteration order of sets of names
+        hs.append({"id": "decomp/N4-simple/h%d" % seed, "params": {"kind": "decomp4", "fixed": [], "binary": True, "hashseed": seed}, "timeout": 900})
     for op in ("add_edge", "remove_node", "add_node"):
         for hasb in (0, 1):
             if op == "add_edge" and hasb:
@@ -302,9 +305,14 @@ def build(params):
         fixed = params["fixed"]
         args = [("p%d" % i, "int") for i in range(6)] + [("s%d" % i, "int") for i in range(4)]
         pre = []
-        for i in range(6):
-            pre.append(("p%d == %d" % (i, fixed[i])) if i < 2 else "0 <= p%d <= 3" % i)
-        pre.append(" and ".join("0 <= s%d <= 1" % i for i in range(4)))
+        if params.get("binary"):
+            # every labelled simple graph on four nodes (each pair linked + + or not at all, no self-links)
+            pre.append(" and ".join("0 <= p%d <= 1" % i for i in range(6)))
+            pre.append(" and ".join("s%d == 0" % i for i in range(4)))
+        else:
+            for i in range(6):
+                pre.append(("p%d == %d" % (i, fixed[i])) if i < 2 else "0 <= p%d <= 3" % i)
+            pre.append(" and ".join("0 <= s%d <= 1" % i for i in range(4)))
 
         def case(*a):
             links = []
